@@ -117,64 +117,22 @@ func c06r1(c *core.Ctx) {
 			}
 		}
 	}
-	// reader: sequence of stream reads
+	// reader: sequence of stream reads (frame model: locals or struct fields, uint16 or [2]byte + Uint16)
 	var rdesc []string
-	var lengthAlloc *ssa.Alloc
+	fm := buildFrameModel(dec)
 	for _, b := range dec.Blocks {
 		for _, i := range b.Instrs {
-			t, _, ok := isStreamRead(i)
-			if !ok {
-				if cc, isC := i.(*ssa.Call); isC && cc.Call.IsInvoke() && cc.Call.Method.Name() == "Read" {
-					rdesc = append(rdesc, "bare-Read")
-				}
-				continue
-			}
-			order := "LE"
-			if core.IsCall(i, "encoding/binary.Read") {
-				if !core.AnySource(core.Args(i)[1], func(s ssa.Value) bool {
-					u, ok := s.(*ssa.UnOp)
-					if !ok {
-						return false
-					}
-					g, ok := u.X.(*ssa.Global)
-					return ok && g.Name() == "LittleEndian"
-				}) {
-					order = "BE"
-				}
-			}
-			a, isA := t.(*ssa.Alloc)
-			if !isA {
-				rdesc = append(rdesc, "?")
-				continue
-			}
-			el := a.Type().(*types.Pointer).Elem()
-			if bt, ok := el.Underlying().(*types.Basic); ok && bt.Kind() == types.Uint16 {
-				lengthAlloc = a
-				rdesc = append(rdesc, "uint16/"+order)
-				continue
-			}
-			if _, ok := el.Underlying().(*types.Slice); ok {
-				// sized by the length?
-				sized := false
-				for _, r := range *a.Referrers() {
-					if st, ok := r.(*ssa.Store); ok && st.Addr == a {
-						if ms, ok := st.Val.(*ssa.MakeSlice); ok && lengthAlloc != nil && core.AnySource(ms.Len, func(s ssa.Value) bool {
-							u, ok := s.(*ssa.UnOp)
-							return ok && u.X == ssa.Value(lengthAlloc)
-						}) {
-							sized = true
-						}
+			if _, _, ok := isStreamRead(i); ok {
+				for _, r := range fm.reads {
+					if ssa.Instruction(r.call) == i {
+						rdesc = append(rdesc, r.kind)
 					}
 				}
-				if sized {
-					rdesc = append(rdesc, "ciphertext")
-				} else {
-					rdesc = append(rdesc, "bytes[?]")
-				}
 				continue
 			}
-			w, _ := widthOf(el)
-			rdesc = append(rdesc, fmt.Sprintf("tag[%d]", w))
+			if cc, isC := i.(*ssa.Call); isC && cc.Call.IsInvoke() && cc.Call.Method.Name() == "Read" {
+				rdesc = append(rdesc, "bare-Read")
+			}
 		}
 	}
 	want := "[uint16/LE ciphertext tag[16]]"
@@ -460,20 +418,12 @@ func c06r5(c *core.Ctx) {
 	}
 	// On every path where the length read reports io.EOF (taken edge err == io.EOF), the function returns (reader, nil),
 	// whatever has been buffered before: a message whose last frame is full ends exactly there.
-	var lengthRead ssa.Instruction
-	core.Instrs(dec, func(i ssa.Instruction) {
-		if t, _, ok := isStreamRead(i); ok && lengthRead == nil {
-			if a, isA := t.(*ssa.Alloc); isA {
-				if b, isB := a.Type().(*types.Pointer).Elem().Underlying().(*types.Basic); isB && b.Kind() == types.Uint16 {
-					lengthRead = i
-				}
-			}
-		}
-	})
-	if lengthRead == nil {
+	fm := buildFrameModel(dec)
+	if fm.length == nil {
 		c.Undecided("length-read@"+fname(dec), dec.Pos(), "not found")
 		return
 	}
+	lengthErr := fm.length.errv
 	eofFact := func(cond ssa.Value) (bool, bool) {
 		b, ok := cond.(*ssa.BinOp)
 		if !ok || (b.Op != token.EQL && b.Op != token.NEQ) {
@@ -487,7 +437,7 @@ func c06r5(c *core.Ctx) {
 			g, ok := u.X.(*ssa.Global)
 			return ok && g.Name() == "EOF" && g.Pkg.Pkg.Path() == "io"
 		}
-		isErr := func(v ssa.Value) bool { return v == ssa.Value(lengthRead.(*ssa.Call)) }
+		isErr := func(v ssa.Value) bool { return v == lengthErr }
 		if (isEOF(b.X) && isErr(b.Y)) || (isEOF(b.Y) && isErr(b.X)) {
 			return b.Op == token.EQL, b.Op == token.NEQ
 		}
@@ -503,7 +453,7 @@ func c06r5(c *core.Ctx) {
 			if !ok {
 				continue
 			}
-			t, f := eofFact(iff.Cond)
+			t, f := eofFact(resolvedCmp(pa, k, iff.Cond))
 			if (t && pa[k+1] == b.Succs[0]) || (f && pa[k+1] == b.Succs[1]) {
 				tookPure = true
 			}
@@ -514,7 +464,7 @@ func c06r5(c *core.Ctx) {
 			b := pa[k]
 			if iff, ok := b.Instrs[len(b.Instrs)-1].(*ssa.If); ok {
 				if bo, ok := iff.Cond.(*ssa.BinOp); ok {
-					t, f := eofFact(bo)
+					t, f := eofFact(resolvedCmp(pa, k, bo))
 					if (t && pa[k+1] == b.Succs[0]) || (f && pa[k+1] == b.Succs[1]) {
 						eofSeen = true
 					}
@@ -547,4 +497,17 @@ func writtenPieces(arg ssa.Value) []ssa.Value {
 		return parts
 	}
 	return []ssa.Value{arg}
+}
+
+// resolvedCmp: the comparison cond with its operands replaced by what they stand for on this path (merged error variables).
+func resolvedCmp(pa core.Path, k int, cond ssa.Value) ssa.Value {
+	bo, ok := cond.(*ssa.BinOp)
+	if !ok {
+		return cond
+	}
+	x, y := pa.ResolveAt(k, bo.X), pa.ResolveAt(k, bo.Y)
+	if x == bo.X && y == bo.Y {
+		return cond
+	}
+	return &ssa.BinOp{Op: bo.Op, X: x, Y: y}
 }
